@@ -78,7 +78,7 @@ def page_notes(page: Any) -> list[dict]:
     return out
 
 
-def compile_path(zdir: Path, path: Path, verbose: bool = False) -> dict:
+def compile_path(zdir: Path, path: Path, verbose: bool = False, keep_page: bool = False) -> dict:
     """walk_zorg_page on a file; never raises."""
     from zorg.service.compiler import walk_zorg_page
 
@@ -89,6 +89,8 @@ def compile_path(zdir: Path, path: Path, verbose: bool = False) -> dict:
         page = walk_zorg_page(zdir, path, verbose=verbose)
         res["has_errors"] = bool(page.has_errors)
         res["notes"] = page_notes(page)
+        if keep_page:
+            res["page"] = page
     except Exception as e:  # noqa: BLE001
         import traceback
 
@@ -111,7 +113,7 @@ def compile_path(zdir: Path, path: Path, verbose: bool = False) -> dict:
 _TEXT_DIR: dict[int, Path] = {}
 
 
-def compile_text(text: str, name: str = "t.zo", verbose: bool = False) -> dict:
+def compile_text(text: str, name: str = "t.zo", verbose: bool = False, keep_page: bool = False) -> dict:
     """Compile page text (written to a per-process scratch file)."""
     import os
 
@@ -121,7 +123,7 @@ def compile_text(text: str, name: str = "t.zo", verbose: bool = False) -> dict:
     p = d / name
     p.parent.mkdir(parents=True, exist_ok=True)
     p.write_bytes(text.encode("utf-8", "surrogateescape") if isinstance(text, str) else text)
-    return compile_path(d, p, verbose=verbose)
+    return compile_path(d, p, verbose=verbose, keep_page=keep_page)
 
 
 def lex(text: str, which: str) -> list[tuple[str, str]]:
